@@ -169,6 +169,10 @@ class PUSO(BO, PUSOMatrix):
         P = puso_to_pubo(self)
         P._mapping = self.mapping
         P._reverse_mapping = self.reverse_mapping
+        # the mapping enumerates all of self's variables, so P must count
+        # them too; otherwise reduction ancillas could reuse a mapped label.
+        P._variables = self.variables
+        P._num_binary_variables = self.num_binary_variables
         return P
 
     def to_pubo(self, deg=None, lam=None, pairs=None):
